@@ -291,10 +291,16 @@ def S_truediv(a, b):
     return mk(simp(ta / tb))
 
 
+def _isnan(v):
+    return isinstance(v, float) and v != v
+
+
 def _cmp(pyop, zop):
     def f(a, b):
         if is_conc(a) and is_conc(b):
             return pyop(a, b)
+        if (is_conc(a) and _isnan(_pyval(a))) or (is_conc(b) and _isnan(_pyval(b))):
+            return pyop is operator.ne          # IEEE: every comparison with nan is false, except !=
         # cheap bound reasoning
         ta, tb = T(a), T(b)
         if z3.is_bool(ta) and z3.is_bool(tb) and pyop in (operator.eq, operator.ne):
